@@ -37,6 +37,9 @@ type SyncCase struct {
 	// MetaOn: metadata-only receive selecting exactly the paths in MetaSel
 	MetaOn  bool     `json:"metaon,omitempty"`
 	MetaSel []string `json:"metasel,omitempty"`
+	// ViaLinks: the source root handed to NewFS and the destination handed to Receive are symlinks to the
+	// directories (a versioned "current -> releases/7" layout)
+	ViaLinks bool `json:"vialinks,omitempty"`
 }
 
 func (c SyncCase) String() string {
@@ -49,6 +52,9 @@ func (c SyncCase) String() string {
 	}
 	if c.AbortFirst != nil {
 		s += fmt.Sprintf(" after-a-run-aborted-by(%s@%d)", c.AbortFirst.End, c.AbortFirst.K)
+	}
+	if c.ViaLinks {
+		s += " roots-reached-through-symlinks"
 	}
 	if c.Notify || c.FilterShift || c.FilterUID {
 		s += fmt.Sprintf(" notify=%v filter-shift=%v filter-uid=%v", c.Notify, c.FilterShift, c.FilterUID)
@@ -75,6 +81,8 @@ func newSyncDirs() *syncDirs {
 	d := &syncDirs{root: root, src: filepath.Join(root, "src"), dst: filepath.Join(root, "dst")}
 	os.Mkdir(d.src, 0755)
 	os.Mkdir(d.dst, 0755)
+	os.Symlink("src", d.src+".lnk")
+	os.Symlink(d.dst, d.dst+".lnk")
 	return d
 }
 
@@ -145,7 +153,11 @@ func (d *syncDirs) transferFault(c SyncCase, srcTree fsmodel.Tree, fault xfer.Fa
 			}
 		}
 	} else {
-		if src, err = fsutil.NewFS(d.src); err != nil {
+		srcArg := d.src
+		if c.ViaLinks {
+			srcArg += ".lnk"
+		}
+		if src, err = fsutil.NewFS(srcArg); err != nil {
 			o.Err = err.Error()
 			return o
 		}
@@ -179,7 +191,11 @@ func (d *syncDirs) transferFault(c SyncCase, srcTree fsmodel.Tree, fault xfer.Fa
 		opt.NotifyHashed = notes.Handle
 		opt.ContentHasher = xfer.Hasher
 	}
-	o.Res = xfer.RunFault(src, d.dst, opt, nil, fault)
+	dstArg := d.dst
+	if c.ViaLinks {
+		dstArg += ".lnk"
+	}
+	o.Res = xfer.RunFault(src, dstArg, opt, nil, fault)
 	o.Notes = notes.List
 	if o.After, err = fsmodel.Snapshot(d.dst); err != nil {
 		o.Err = err.Error()
